@@ -148,7 +148,6 @@ class ScatteringParams:
         )
 
     @staticmethod
-    @lru_cache
     def for_isotope(isotope: str) -> ScatteringParams:
         """Return the scattering parameters for the given element / isotope.
 
